@@ -22,6 +22,7 @@ Check C18_missing_recognised :
   is_missing (EBase resolve_ref_free_err) = true /\
   is_missing (EBase resolve_ref_invalid_err) = true /\
   is_missing (if resolve_ref_get_in_try then ETry (EBase xref_get_none_err) else EBase xref_get_none_err) = true.
+Check C18_existing_object_not_missing : forall f e, is_missing (EFromPrim f e) = false /\ opt_none (EFromPrim f e) = false.
 Check C18_element_skipped : forall SC H allow E f chain t i g pre post e0,
   resolving SC t = true -> dangling E i -> chain_has i g chain = false ->
   read SC H allow E (S f) chain t PNull = TErr e0 ->
